@@ -480,6 +480,9 @@ def run(ck):
     for rep in range(reps):
         for (k, op, args, r, mode) in cases:
             variants.append((rep, k, op, args, r, mode, None, None))
+            if mode == "generic":
+                # a batch of exactly three items (a batch extent equal to the size of the vector parts: axis mix-ups show only there)
+                variants.append((rep, k, op, args, r, mode, [(3,)] * len(args), None))
             if len(args) == 2 and mode in ("generic", "thin"):
                 # one operand broadcast against many (single pose x many points / twists, and the converse)
                 variants.append((rep, k, op, args, r, mode, BCAST[(len(variants) + rep) % len(BCAST)], None))
@@ -529,10 +532,10 @@ def run(ck):
                 if lo < 0.1:
                     continue
             st = judge(ck, tree, types, leaves, ck.subseed(("g", ci)), "op_alone",
-                       f"{k}/{op}/{mode}" + ("/bcast" if bshapes else "") + ("/const" if flags else ""), f"{k}.{op}",
+                       f"{k}/{op}/{mode}" + (("/bcast" if len(set(bshapes)) > 1 else "/batch3") if bshapes else "") + ("/const" if flags else ""), f"{k}.{op}",
                        front_ends=(rep == 0 and bshapes is None), rng=rng, flags=flags)
             if bshapes:
-                ck.mark("alone/broadcast")
+                ck.mark("alone/broadcast" if len(set(bshapes)) > 1 else "alone/batch-of-three")
             ck.mark(f"alone/{k}/{op}/{mode}/{st}")
     if ck.shard == 1 % ck.nshards:
         exact_exp_log(ck, rng, thorough)        # after a float64-first history of this process
@@ -606,6 +609,6 @@ def run(ck):
         if v:
             ck.mark("backward/" + k, v)
         ck.require("backward/" + k)
-    ck.require("alone/broadcast", "constants/some_leaves_do_not_require_grad")
+    ck.require("alone/broadcast", "alone/batch-of-three", "constants/some_leaves_do_not_require_grad")
     ck.floor("op_alone", 100)
     ck.floor("program", 20)
